@@ -129,3 +129,143 @@ example : (templateSolve
   decide
 
 end BindgenModel.C01
+
+namespace BindgenModel.C01
+open BindgenModel.IR BindgenModel.Analyses BindgenModel.Generated BindgenModel.Worklist
+
+/-! ## the analysis computes exactly the Horn closure
+
+`chain_closed` says the solution contains what single-atom chains derive.  The full statement: for an
+instance whose rules are Horn rules only (a 0/1 constant and clauses — the shape of every rule of
+`templateInstance`), a fact holds in the solution **iff** it has a derivation.  "If" is what keeps rustc
+from E0412 (a generic that is needed is declared); "only if" is what keeps it from E0392 on account of the
+analysis (no generic is declared that no derivation needs). -/
+
+/-- derivations: a constant, or a clause all of whose atoms are derived; only facts of the instance -/
+inductive Derivable (I : Instance) : Nat → Prop
+  | const (k : Nat) (hk : k ∈ I.nodes) (h : (I.rules.getD k {}).const ≠ 0) : Derivable I k
+  | clause (k : Nat) (hk : k ∈ I.nodes) (c : List Nat) (hc : c ∈ (I.rules.getD k {}).conj)
+      (h : ∀ a ∈ c, Derivable I a) : Derivable I k
+
+theorem hornOnly_spec (I : Instance) (h : I.hornOnly = true) (k : Nat) :
+    (I.rules.getD k {}).terms = [] ∧ (I.rules.getD k {}).const ≤ 1 ∧
+    (k ∉ I.nodes → (I.rules.getD k {}).const = 0 ∧ (I.rules.getD k {}).conj = []) := by
+  by_cases hk : k < I.rules.size
+  · simp only [Instance.hornOnly, List.all_eq_true, List.mem_range] at h
+    have := h k hk
+    simp only [Bool.and_eq_true, Bool.or_eq_true, decide_eq_true_eq, List.isEmpty_iff, beq_iff_eq,
+      List.contains_eq_mem, decide_eq_true_eq] at this
+    refine ⟨this.1.1, this.1.2, ?_⟩
+    intro hn
+    rcases this.2 with h1 | h1
+    · exact absurd h1 hn
+    · exact h1
+  · have : I.rules.getD k {} = {} := by
+      simp [Array.getD, hk]
+    rw [this]
+    exact ⟨rfl, by decide, fun _ => ⟨rfl, rfl⟩⟩
+
+/-- **soundness of derivations**: whatever has a derivation holds in every state that is stable on the
+instance's facts -/
+theorem derivable_holds (I : Instance) (s : Nat → V) (hst : ∀ k ∈ I.nodes, Stable I.framework s k)
+    (k : Nat) (hd : Derivable I k) : s k ≠ 0 := by
+  induction hd with
+  | const k hk h =>
+    have hs := hst k hk
+    unfold Stable at hs
+    simp only [Instance.framework, decide_eq_true_eq] at hs
+    unfold NodeRule.eval at hs
+    rw [vmax_le_iff, vmax_le_iff] at hs
+    intro h0
+    rw [h0] at hs
+    have : (I.rules.getD k {}).const = 0 := by
+      have := hs.1.1
+      exact Fin.le_zero_iff.mp this
+    exact h this
+  | clause k hk c hc _ ih => exact horn_closed I s k (hst k hk) c hc ih
+
+theorem clauseVal_le_one (s : Nat → V) (c : List Nat) : clauseVal s c ≤ 1 := by
+  unfold clauseVal
+  split <;> decide
+
+open Classical in
+/-- the state "1 on what is derivable" -/
+noncomputable def derivState (I : Instance) : Nat → V := fun k => if Derivable I k then 1 else 0
+
+/-- … is closed under the rules of a Horn instance -/
+theorem derivState_stable (I : Instance) (hh : I.hornOnly = true) (k : Nat) :
+    Stable I.framework (derivState I) k := by
+  obtain ⟨ht, hc1, hout⟩ := hornOnly_spec I hh k
+  unfold Stable
+  simp only [Instance.framework, decide_eq_true_eq]
+  unfold NodeRule.eval
+  rw [ht]
+  simp only [List.map_nil, joinList, List.foldl_nil]
+  by_cases hd : Derivable I k
+  · -- the right-hand side is 1
+    have hp : derivState I k = 1 := by simp [derivState, hd]
+    rw [hp, vmax_le_iff, vmax_le_iff]
+    refine ⟨⟨hc1, by decide⟩, ?_⟩
+    have := (joinList_le ((I.rules.getD k {}).conj.map (clauseVal (derivState I))) 1).mpr
+    apply this
+    intro x hx
+    obtain ⟨c, _, rfl⟩ := List.mem_map.mp hx
+    exact clauseVal_le_one _ c
+  · have hp : derivState I k = 0 := by simp [derivState, hd]
+    rw [hp, vmax_le_iff, vmax_le_iff]
+    by_cases hk : k ∈ I.nodes
+    · refine ⟨⟨?_, by decide⟩, ?_⟩
+      · -- a non-zero constant would be a derivation
+        by_cases h0 : (I.rules.getD k {}).const = 0
+        · rw [h0]; decide
+        · exact absurd (Derivable.const k hk h0) hd
+      · have := (joinList_le ((I.rules.getD k {}).conj.map (clauseVal (derivState I))) 0).mpr
+        apply this
+        intro x hx
+        obtain ⟨c, hc, rfl⟩ := List.mem_map.mp hx
+        unfold clauseVal
+        split
+        · rename_i hall
+          rw [List.all_eq_true] at hall
+          have : ∀ a ∈ c, Derivable I a := by
+            intro a ha
+            have := hall a ha
+            by_cases hda : Derivable I a
+            · exact hda
+            · simp [derivState, hda] at this
+          exact absurd (Derivable.clause k hk c hc this) hd
+        · decide
+    · obtain ⟨h0, hnil⟩ := hout hk
+      rw [h0, hnil]
+      simp [joinList]
+
+/-- **the solution of a Horn instance is exactly the set of derivable facts** -/
+theorem solution_iff_derivable (I : Instance) (hh : I.hornOnly = true) (hcov : I.readsCovered = true)
+    (hclosed : I.depsClosed = true) (hwl : ∀ n ∈ I.initWl, n ∈ I.nodes) (hall : ∀ n ∈ I.nodes, n ∈ I.initWl)
+    (k : Nat) (hk : k ∈ I.nodes) :
+    analyze I.framework I.initWl k ≠ 0 ↔ Derivable I k := by
+  constructor
+  · intro hne
+    have hle := C07_least I.framework (instance_lawful I hcov)
+      (by intro a; simp [Instance.framework]) I.initWl (derivState I) (derivState_stable I hh) k
+    simp only [Instance.framework, decide_eq_true_eq] at hle
+    by_cases hd : Derivable I k
+    · exact hd
+    · have hp : derivState I k = 0 := by simp [derivState, hd]
+      rw [hp] at hle
+      exact absurd (Fin.le_zero_iff.mp hle) hne
+  · intro hd
+    exact derivable_holds I _ (C07_instance_stable I hcov hclosed hwl hall) k hd
+
+/-- for the template-parameter usage analysis of any dumped graph -/
+theorem C01_used_params_exact (g : IR) (hh : (templateInstance g).1.hornOnly = true)
+    (hcov : (templateInstance g).1.readsCovered = true) (hclosed : (templateInstance g).1.depsClosed = true)
+    (k : Nat) (hk : k ∈ (templateInstance g).1.nodes) :
+    analyze (templateInstance g).1.framework (templateInstance g).1.initWl k ≠ 0 ↔
+      Derivable (templateInstance g).1 k := by
+  have hI : (templateInstance g).1.initWl = (templateInstance g).1.nodes.reverse := by
+    simp [templateInstance]
+  exact solution_iff_derivable _ hh hcov hclosed
+    (by intro n hn; rw [hI] at hn; simpa using hn) (by intro n hn; rw [hI]; simpa using hn) k hk
+
+end BindgenModel.C01
